@@ -8,6 +8,7 @@ import (
 	"path/filepath"
 	"sort"
 	"strings"
+	"sync"
 )
 
 var plans = map[string]func(cx *CheckCtx) int{}
@@ -286,9 +287,125 @@ func init() {
 }
 
 func runReplayFS(rf *ReplayFile) int {
-	fmt.Fprintln(os.Stderr, "fs replay not built yet")
-	return 2
+	scratch, _ := os.MkdirTemp(scratchBase(), "vreplay")
+	defer os.RemoveAll(scratch)
+	goit, err := buildGoit(scratch, false)
+	if err != nil {
+		fmt.Fprintln(os.Stderr, err)
+		return 2
+	}
+	for _, c := range rf.Commands {
+		fmt.Println("  ", c)
+	}
+	fmt.Println("  ", rf.Note)
+	again, err := reexecFS(goit, rf, filepath.Join(scratch, "judge"))
+	if err != nil {
+		fmt.Fprintln(os.Stderr, err)
+		return 2
+	}
+	if again {
+		fmt.Printf("REPRODUCED property=%s clause=%s\n", rf.Property, rf.Clause)
+		return 1
+	}
+	fmt.Println("not reproduced")
+	return 0
 }
 
 // modelJobs: behaviours generated by TLC from the bounded operational model (added later).
 var modelJobs = func(cx *CheckCtx, id string) []Job { return nil }
+
+func fsPlan(id string) func(cx *CheckCtx) int {
+	return func(cx *CheckCtx) int {
+		mode := FSMode{Crash: id == "C15", Fault: id == "C16", Errnos: defaultErrnos, MaxPerCmd: 0}
+		nRandom := 3
+		if cx.Tier == "thorough" {
+			mode.Errnos = thoroughErrnos
+			mode.KillSample = 10
+			nRandom = 40
+		}
+		stats := &fsStats{ByCmd: map[string]int{}}
+		var smu sync.Mutex
+		var jobs []Job
+		for _, s := range loadScenarios(id) {
+			s := s
+			jobs = append(jobs, Job{Name: "fs-scenario " + s.Name, Make: func(goit string, c *Chunk, rng *rand.Rand) {
+				st := &fsStats{ByCmd: map[string]int{}}
+				var infra []string
+				fsEnumerate(goit, c, s.Steps, nil, s.TZ, mode, rng, s.Name, st, &infra)
+				smu.Lock()
+				mergeStats(stats, st)
+				cx.InfraErr = append(cx.InfraErr, infra...)
+				smu.Unlock()
+			}})
+		}
+		prof := baseProfile("fsrandom")
+		prof.Steps = 25
+		prof.Hostile = 3
+		for i := 0; i < nRandom; i++ {
+			i := i
+			jobs = append(jobs, Job{Name: fmt.Sprintf("fs-random %d", i), Make: func(goit string, c *Chunk, rng *rand.Rand) {
+				// first draw a history with the ordinary random driver, then re-execute it with enumeration
+				base, _ := os.MkdirTemp(scratchBase(), "vfsr")
+				T0 := NewTables()
+				p := *prof
+				tr := runRandom(goit, base, T0, &p, rng, fmt.Sprintf("fsr#%d", i))
+				os.RemoveAll(base)
+				st := &fsStats{ByCmd: map[string]int{}}
+				var infra []string
+				m := mode
+				m.MaxPerCmd = 12
+				fsEnumerate(goit, c, tr.Events, tr.Contents, tr.R.TZ, m, rng, tr.Label, st, &infra)
+				smu.Lock()
+				mergeStats(stats, st)
+				cx.InfraErr = append(cx.InfraErr, infra...)
+				smu.Unlock()
+			}})
+		}
+		cx.runJobs(jobs, "GoitTrace")
+		cx.Extra["fs_cases"] = stats.CrashPoints + stats.FaultPoints
+		cx.Extra["crash_points"] = stats.CrashPoints
+		cx.Extra["fault_points"] = stats.FaultPoints
+		cx.Extra["fault_positions_unreached"] = stats.Unreached
+		cx.Extra["commands_recorded"] = stats.Commands
+		cx.Extra["positions_by_command"] = stats.ByCmd
+		cx.Extra["real_kill_crosschecked"] = stats.KillChecked
+		cx.Extra["real_kill_mismatch"] = stats.KillMismatch
+		cx.Extra["recording_selfcheck_failures"] = stats.Drift
+		if len(stats.Samples) > 0 {
+			cx.Samples = stats.Samples
+		}
+		if stats.KillMismatch > 0 {
+			cx.InfraErr = append(cx.InfraErr, fmt.Sprintf("%d materialised crash states differ from really killed runs", stats.KillMismatch))
+		}
+		what := "crash point = a prefix of the recorded file-system modifications of one command applied to a copy of the pre-state"
+		if id == "C16" {
+			what = "fault position = one recorded file-system call (open/create/read/readdir/write/mkdir/rename/remove) of one command made to fail by strace error injection"
+		}
+		return cx.finish("fault_enumeration",
+			what+"; every position of every modifying command of the corpus (scenarios + seeded random histories) is enumerated; evaluations = positions judged by TLC against the GoitFSProps clauses; distinct = distinct (command line, pre-state digest, position) triples",
+			[]string{"strace -f -y -xx reports the file-system calls faithfully; recording is self-checked (replaying all recorded modifications must reproduce the real post-state)", "kill between two modifications, not power loss: no reordering, no torn writes", "projector is trusted"})
+	}
+}
+
+func mergeStats(a, b *fsStats) {
+	a.CrashPoints += b.CrashPoints
+	a.FaultPoints += b.FaultPoints
+	a.Unreached += b.Unreached
+	a.KillChecked += b.KillChecked
+	a.KillMismatch += b.KillMismatch
+	a.Commands += b.Commands
+	a.Drift += b.Drift
+	for k, v := range b.ByCmd {
+		a.ByCmd[k] += v
+	}
+	for _, s := range b.Samples {
+		if len(a.Samples) < 6 {
+			a.Samples = append(a.Samples, s)
+		}
+	}
+}
+
+func init() {
+	plans["C15"] = fsPlan("C15")
+	plans["C16"] = fsPlan("C16")
+}
